@@ -203,6 +203,10 @@ FMTW = ("fmt::Write::write_fmt over lace's own writers, whose write_str stores O
 add(OUT + "print_fmt|unwrap|expect(write_fmt(&adt:lace::output::NormalWriter:NormalWriter{minimal}, args))", "reviewed", FMTW)
 add(OUT + "print_fmt|unwrap|expect(write_fmt(&adt:lace::output::DebuggerWriter:DebuggerWriter{minimal, *category}, args))", "reviewed", FMTW)
 
+RSN = ("the lookup is given a breakpoint address minus the origin; a breakpoint address is a statement index (at most 65534: the parser refuses longer programs, C05.R5) "
+       "plus the origin, or a user-space address below 0xFE00 (C13.R1/R2), so the argument is at most 0xFFFE (checked on the binary: `.orig x0000`, `.blkw xFFFE`, `.break`)")
+# the same addition inside a predicate closure of the lookup (`sym.iter().find(|(_, a)| **a == address + 1)`; no such site on the pinned tree)
+add("debugger::resolve_symbol_name::{closure#0}::{closure#0}|overflow:Add|Add(**_1.0, 1)", "reviewed", RSN)
 add("debugger::resolve_symbol_name::{closure#0}|overflow:Add|Add(*_1.0, 1)", "reviewed",
     "the lookup is given a breakpoint address minus the origin; a breakpoint address is a statement index (at most 65534: the parser refuses longer programs, C05.R5) "
     "plus the origin, or a user-space address below 0xFE00 (C13.R1/R2), so the argument is at most 0xFFFE (checked on the binary: `.orig x0000`, `.blkw xFFFE`, `.break`)")
